@@ -252,6 +252,19 @@ class World:
             return os.path.join(sub, "result of " + basename(k) + ".out")
         return os.path.normpath(os.path.join("out", DIRS[k["dir"]], basename(k)))
 
+    def blocker_rel(self):
+        """Path (relative to the sandbox) of the regular file that takes the place of an output
+        sub-directory, or None.  Directory 1 blocked: its own name.  Only directory 2 blocked:
+        one of the three levels of its path, chosen by the content variant."""
+        dirs = {k["dir"] for k in self.files if self.faults.get(kind_id(k)) == "blocked"}
+        if not dirs:
+            return None
+        parts = DIRS[2].split("/")
+        depth = 1 if 1 in dirs else 1 + self.g["variant"] % 3
+        if 1 not in dirs and any(k["dir"] == 1 and k["name"] != "dot" for k in self.files):
+            depth = 2 + self.g["variant"] % 2          # directory 1 has processable files of its own: block below it
+        return os.path.join("out", *parts[:depth])
+
     def build(self, root):
         g = self.g
         _write(os.path.join(root, "beside.txt"), b"a bystander next to the input\n")
@@ -271,13 +284,16 @@ class World:
                 os.makedirs(os.path.join(root, "out dir"), exist_ok=True)
                 if g["pre"] == "stale":
                     _write(os.path.join(root, "out dir", "keep.txt"), b"unrelated file\n")
+        blocker = self.blocker_rel()
+        if blocker:
+            _write(os.path.join(root, blocker), b"a regular file where an output sub-directory is needed\n")
         for k in self.files:
             kid = kind_id(k)
             slot = os.path.join(root, self.slot_rel(k))
             visible = not (k["name"] == "dot" or k["dir"] == 3)
             if self.faults.get(kid) == "outdir":
                 os.makedirs(slot, exist_ok=True)
-            elif g["pre"] == "stale" and visible:
+            elif g["pre"] == "stale" and visible and not (blocker and (self.slot_rel(k) + os.sep).startswith(blocker + os.sep)):
                 _write(slot, STALE + kid.encode())
 
     def paths(self, root):
@@ -297,7 +313,7 @@ class World:
         texts, raised = run_entry(entry, self.g["feat"], inp, outp, repo)
         snap1 = snapshot(root)
         shutil.rmtree(root, ignore_errors=True)
-        return {"snap0": snap0, "snap1": snap1, "texts": texts, "raised": raised}
+        return {"snap0": snap0, "snap1": snap1, "texts": texts, "raised": raised, "entry": entry}
 
     def project(self, ex, base_out, tol=False):
         """Abstract events of one execution (see FilesTrace.tla)."""
@@ -333,7 +349,8 @@ class World:
         o1 = sorted((p, v) for p, v in snap1.items() if v != "DIR" and p not in special)
         events.append({"ev": "end",
                        "others0": "O:" + hashlib.sha1(json.dumps(o0).encode()).hexdigest(),
-                       "others1": "O:" + hashlib.sha1(json.dumps(o1).encode()).hexdigest()})
+                       "others1": "O:" + hashlib.sha1(json.dumps(o1).encode()).hexdigest(),
+                       "raised": bool(ex["raised"]), "mayraise": ex.get("entry") == "fafile"})
         d0, d1 = dict(o0), dict(o1)
         info = {"raised": ex["raised"], "reports": [t[:200] for t in report_texts[:4]],
                 "others_changed": sorted(p for p in set(d0) | set(d1) if d0.get(p) != d1.get(p))[:6],
@@ -497,11 +514,12 @@ def run_iso(job, fsroot, repo):
                                 "in0": snap0.get(ip, "ABSENT"), "in1": snap1.get(ip, "ABSENT"),
                                 "pre": snap0.get(sp, "ABSENT"), "out": snap1.get(sp, "ABSENT"), "absent": out_abs,
                                 "allfailed": allfailed, "ifproc": digest(data[r]), "reported": rep.get(r, False)})
-        for which, (s0, s1) in (("with", (snap0, snap1)), ("absent", (a0, a1))):
+        for which, (s0, s1), rz in (("with", (snap0, snap1), raised), ("absent", (a0, a1), araised)):
             o0 = sorted((p, v) for p, v in s0.items() if v != "DIR" and p not in special)
             o1 = sorted((p, v) for p, v in s1.items() if v != "DIR" and p not in special)
             evs[which].append({"ev": "end", "others0": "O:" + hashlib.sha1(json.dumps(o0).encode()).hexdigest(),
-                               "others1": "O:" + hashlib.sha1(json.dumps(o1).encode()).hexdigest()})
+                               "others1": "O:" + hashlib.sha1(json.dumps(o1).encode()).hexdigest(),
+                               "raised": bool(rz), "mayraise": False})
         firstfail = min(order.index(r) for r in failing)
         lastfail = max(order.index(r) for r in failing)
         pos = {r: ("before" if order.index(r) < firstfail else "after" if order.index(r) > lastfail else "between")
@@ -584,9 +602,71 @@ def run_rel(job, fsroot, repo):
         o0 = sorted((p, v) for p, v in snap0.items() if v != "DIR" and p not in special)
         o1 = sorted((p, v) for p, v in snap1.items() if v != "DIR" and p not in special)
         events.append({"ev": "end", "others0": "O:" + hashlib.sha1(json.dumps(o0).encode()).hexdigest(),
-                       "others1": "O:" + hashlib.sha1(json.dumps(o1).encode()).hexdigest()})
+                       "others1": "O:" + hashlib.sha1(json.dumps(o1).encode()).hexdigest(),
+                       "raised": bool(raised), "mayraise": False})
         d0, d1 = dict(o0), dict(o1)
         results.append({"entry": entry, "events": events,
                         "info": {"input_arg": inp, "output_arg": outp, "raised": raised, "reports": [x[:160] for x in texts[:3]],
                                  "others_changed": sorted(p for p in set(d0) | set(d1) if d0.get(p) != d1.get(p))[:8]}})
     return {"kind": "rel", "gid": job["gid"], "results": results}
+
+
+# ---------------------------------------------------------------------------
+# output sub-directories whose name is taken by a regular file (hand-built trees
+# with several sibling sub-directories; the generated scenarios have only one)
+# ---------------------------------------------------------------------------
+BLOCK_TREES = {
+    # files below in/, and the paths below out/ that hold a regular FILE before the run
+    "B-middle": {"files": ["r.cfg", "alpha/a1.cfg", "alpha/a2.cfg", "beta/b1.cfg", "gamma/g1.cfg"], "blocked": ["beta"]},
+    "B-first": {"files": ["r.cfg", "alpha/a1.cfg", "beta/b1.cfg", "beta/b2.cfg", "gamma/g1.cfg"], "blocked": ["alpha"]},
+    "B-last": {"files": ["alpha/a1.cfg", "beta/b1.cfg", "zeta/z1.cfg", "zeta/z2.cfg"], "blocked": ["zeta"]},
+    "B-two": {"files": ["r.cfg", "alpha/a1.cfg", "beta/b1.cfg", "gamma/g1.cfg", "delta/d1.cfg"], "blocked": ["alpha", "gamma"]},
+    "B-deeper": {"files": ["r.cfg", "alpha/a1.cfg", "alpha/x/ax.cfg", "alpha/x/y/axy.cfg", "beta/b1.cfg"], "blocked": ["alpha/x"]},
+    "B-ancestor": {"files": ["alpha/a1.cfg", "alpha/x/y/z.cfg", "beta/b1.cfg", "beta/sub/b2.cfg"], "blocked": ["alpha"]},
+    "B-only-subdirs": {"files": ["one/o1.cfg", "two/t1.cfg", "three/h1.cfg"], "blocked": ["one", "two"]},
+}
+
+
+def run_blocked(job, fsroot, repo):
+    t = BLOCK_TREES[job["tree"]]
+    root = os.path.join(fsroot, "w%d" % os.getpid())
+    data = {r: ok_bytes(5 + j, ["lf", "noeol", "nonascii"][j % 3]) for j, r in enumerate(t["files"])}
+    isblocked = {r: any((r + "/").startswith(b + "/") for b in t["blocked"]) for r in t["files"]}
+    results = []
+    for entry in job["entries"]:
+        if os.path.exists(root):
+            shutil.rmtree(root)
+        os.makedirs(root)
+        _write(os.path.join(root, "beside.txt"), b"a bystander next to the input\n")
+        for r in t["files"]:
+            _write(os.path.join(root, "in", r), data[r])
+        for b in t["blocked"]:
+            _write(os.path.join(root, "out", b), b"a regular file where an output sub-directory is needed\n")
+        if job.get("stale"):
+            _write(os.path.join(root, "out", "keep.txt"), b"unrelated file in the output directory\n")
+        snap0 = snapshot(root)
+        texts, raised = run_entry(entry, job["feat"], os.path.join(root, "in"), os.path.join(root, "out"), repo)
+        snap1 = snapshot(root)
+        shutil.rmtree(root, ignore_errors=True)
+        report_texts = list(texts) + ([raised] if raised else [])
+        events = [{"ev": "start"}]
+        special = set()
+        for r in t["files"]:
+            ip, sp = os.path.join("in", r), os.path.join("out", r)
+            special.update((ip, sp))
+            ref = digest(stream_ref(data[r], job["feat"]))
+            out = snap1.get(sp, "ABSENT")
+            events.append({"ev": "file", "id": r, "hidden": False, "indot": False, "fault": "blocked" if isblocked[r] else "none",
+                           "in0": snap0.get(ip, "ABSENT"), "in1": snap1.get(ip, "ABSENT"), "pre": snap0.get(sp, "ABSENT"),
+                           "out": out, "ref": ref, "refnl": ref, "ifproc": ref, "base": out,
+                           "reported": any(os.path.basename(r) in x for x in report_texts), "tol": False})
+        o0 = sorted((p, v) for p, v in snap0.items() if v != "DIR" and p not in special)
+        o1 = sorted((p, v) for p, v in snap1.items() if v != "DIR" and p not in special)
+        events.append({"ev": "end", "others0": "O:" + hashlib.sha1(json.dumps(o0).encode()).hexdigest(),
+                       "others1": "O:" + hashlib.sha1(json.dumps(o1).encode()).hexdigest(),
+                       "raised": bool(raised), "mayraise": False})
+        d0, d1 = dict(o0), dict(o1)
+        results.append({"entry": entry, "events": events,
+                        "info": {"raised": raised, "reports": [x[:160] for x in texts[:3]],
+                                 "others_changed": sorted(p for p in set(d0) | set(d1) if d0.get(p) != d1.get(p))[:8]}})
+    return {"kind": "blk", "gid": job["gid"], "results": results}
